@@ -13,7 +13,8 @@ K3 == <<3, MkClamped(3, <<R(1,4), R(3,4)>>, <<1, 1>>)>>
 \* 1/2, 3/2, 1/2, ... whose sum equals the number of control points
 Tiny(s) == ScaleBy(s, R(3, 100000))
 HalfW(s) == [s EXCEPT !.P = Combine(Ctrlpts(s), [i \in 1..Len(s.P) |-> IF i % 2 = 1 THEN R(1, 2) ELSE R(3, 2)])]
-Variants(S) == S \cup {Tiny(s) : s \in {x \in S : ~x.rat}} \cup {HalfW(s) : s \in {x \in S : x.rat /\ Len(x.P) % 2 = 0}}
+EqualW(s) == [s EXCEPT !.P = Combine(Ctrlpts(s), [i \in 1..Len(s.P) |-> R(5, 2)])]
+Variants(S) == S \cup {Tiny(s) : s \in {x \in S : ~x.rat}} \cup {HalfW(s) : s \in {x \in S : x.rat /\ Len(x.P) % 2 = 0}} \cup {EqualW(s) : s \in {x \in S : x.rat}}
 CurveSet == Variants(Curves({K2, K3, L3}, {2, 3}, BOOLEAN, Seed))
 SurfSet == Variants({s \in Surfaces({B1, L3, K2}, {B2, L3, K2, K3}, {3}, BOOLEAN, Seed) : s.size[1] # s.size[2]})
 VolSet == Variants({s \in Volumes({B1, L3}, {L3, K2}, {B1, K2}, BOOLEAN, Seed) : DiffSizes(s)})
